@@ -33,6 +33,25 @@ pub type ErrorRecovery<'input> =
 pub type ParseError<'input> =
     lalrpop_util::ParseError<usize, rules::aidl::Token<'input>, &'static str>;
 
+#[cfg(feature = "verif-hooks")]
+thread_local! {
+    static VERIF_EXPECTED: std::cell::RefCell<Vec<(Vec<String>, String)>> =
+        const { std::cell::RefCell::new(Vec::new()) };
+}
+
+/// Verification hook: the (expectation vector, message) pairs recorded on this thread since
+/// the last call
+#[cfg(feature = "verif-hooks")]
+pub fn verif_take_expected() -> Vec<(Vec<String>, String)> {
+    VERIF_EXPECTED.with(|v| std::mem::take(&mut *v.borrow_mut()))
+}
+
+/// Verification hook: the message wording for a given expectation vector
+#[cfg(feature = "verif-hooks")]
+pub fn verif_expected_token_str(v: &[String]) -> String {
+    expected_token_str(v)
+}
+
 impl Diagnostic {
     pub(crate) fn from_error_recovery(
         msg: &str,
@@ -46,6 +65,35 @@ impl Diagnostic {
     }
 
     pub(crate) fn from_parse_error(
+        lookup: &line_col::LineColLookup,
+        e: ParseError,
+    ) -> Option<Diagnostic> {
+        #[cfg(feature = "verif-hooks")]
+        return Self::verif_from_parse_error(lookup, e);
+        #[cfg(not(feature = "verif-hooks"))]
+        return Self::from_parse_error_impl(lookup, e);
+    }
+
+    /// Verification hook: records the expectation vector handed to the formatter together
+    /// with the message built from it
+    #[cfg(feature = "verif-hooks")]
+    fn verif_from_parse_error(
+        lookup: &line_col::LineColLookup,
+        e: ParseError,
+    ) -> Option<Diagnostic> {
+        let expected: Option<Vec<String>> = match &e {
+            lalrpop_util::ParseError::UnrecognizedEOF { expected, .. }
+            | lalrpop_util::ParseError::UnrecognizedToken { expected, .. } => Some(expected.clone()),
+            _ => None,
+        };
+        let d = Self::from_parse_error_impl(lookup, e);
+        if let (Some(v), Some(d)) = (expected, &d) {
+            VERIF_EXPECTED.with(|r| r.borrow_mut().push((v, d.message.clone())));
+        }
+        d
+    }
+
+    fn from_parse_error_impl(
         lookup: &line_col::LineColLookup,
         e: ParseError,
     ) -> Option<Diagnostic> {
